@@ -418,7 +418,7 @@ impl Sim {
 		mevs.len()
 	}
 
-	pub fn height_of(&self, node: usize) -> u32 {
+	pub fn c06_height_of(&self, node: usize) -> u32 {
 		self.w.nodes[node].best_block_info().1
 	}
 
@@ -651,7 +651,7 @@ impl JusticeOracle {
 	/// `CounterpartyRevokedOutputClaimable` for exactly the outputs V has not yet taken, in V's own view of the
 	/// chain? Returns a label describing a mismatch.
 	pub fn observe_balances(&mut self, sim: &Sim) -> Option<&'static str> {
-		let hv = sim.height_of(self.v);
+		let hv = sim.c06_height_of(self.v);
 		let Ok(mon) = sim.w.nodes[self.v].chain_monitor.chain_monitor.get_monitor(self.chan) else { return None };
 		let bals = mon.get_claimable_balances();
 		let mut got: Vec<u64> = bals.iter().filter_map(|b| if let Balance::CounterpartyRevokedOutputClaimable { amount_satoshis } = b { Some(*amount_satoshis) } else { None }).collect();
